@@ -214,25 +214,27 @@ def conditions(tier, seed, active):
     import itertools
     out = []
     quick = tier == "quick"
-    steps = 4 if quick else 5
+    import os
+    deep = bool(os.environ.get("VERIF_DEEP"))       # five-step schedules, three validators, Drafts 3/6: defined, not run end to end in the build round
+    steps = 5 if deep else 4
     for d in (3, 4, 6, 7):
-        cols = QUICK.get(d, []) if quick else (COLLIDE if d in (4, 7) else ["ref", "relative"])
+        cols = QUICK.get(d, []) if quick else (COLLIDE if d in (4, 7) else (["ref", "relative"] if deep else []))
         for col in cols:
             for prefix in itertools.product((0, 1), repeat=2):
                 out.append(dict(id="two/%s/d%d/steps%d/prefix%s" % (col, d, steps, "".join(map(str, prefix))), module=__name__, factory="cube",
                                 params=dict(d=d, collide=col, steps=steps, prefix=list(prefix)), timeout=1500 if quick else 3600,
                                 tags=["errors"], witness=["errors"] if prefix == (0, 1) and d == 7 else []))
-        for col in (() if quick else ("ref", "remote")):
+        for col in (() if (quick or d not in (4, 7)) else ("ref", "remote")):
             for prefix in itertools.product((0, 1), repeat=2):
                 out.append(dict(id="same-instance/%s/d%d/steps%d/prefix%s" % (col, d, steps, "".join(map(str, prefix))), module=__name__, factory="cube",
                                 params=dict(d=d, collide=col, steps=steps, prefix=list(prefix), same=True), timeout=1500 if quick else 3600,
                                 tags=["errors"], witness=[]))
-        for col, sm in ((("ref", True), ("format-str", False)) if (d == 7 or not quick) else ()):
+        for col, sm in ((("ref", True), ("format-str", False)) if (d == 7 or (not quick and d == 4)) else ()):
             for prefix in itertools.product((0, 1), repeat=2):
                 out.append(dict(id="built/%s/d%d/steps%d/prefix%s" % (col, d, steps, "".join(map(str, prefix))), module=__name__, factory="cube",
                                 params=dict(d=d, collide=col, steps=steps, prefix=list(prefix), same=sm, built=True), timeout=1500 if quick else 3600,
                                 tags=["errors"], witness=[]))
-        if not quick:
+        if deep:
             for p0 in range(3):
                 for p1 in (range(1) if quick else range(3)):
                     out.append(dict(id="three/ref/d%d/steps3/first%d%d" % (d, p0, p1), module=__name__, factory="cube",
